@@ -29,8 +29,8 @@ _G = {}
 
 
 def _setting_job(args):
-    (key, syscond, csys, cchoice, ops, cone_rows, Nbox) = args
-    model_ops, schedules = _G["model"]
+    (key, residual, ops, cone_rows, Nbox) = args
+    absent = H.absent_fn(residual)
     bad_extra, bad_missing, npts, nabs = [], [], 0, 0
     seen = set()
     for rows in cone_rows:
@@ -40,7 +40,7 @@ def _setting_job(args):
                 continue
             seen.add(h)
             npts += 1
-            m = H.model_absent(model_ops, schedules, syscond, csys, cchoice, h)
+            m = absent(h)
             g = H.group_extinct(ops, h)
             nabs += 1 if g else 0
             if m and not g:
@@ -50,10 +50,6 @@ def _setting_job(args):
                 if len(bad_extra) < 5:
                     bad_extra.append(h)
     return key, npts, nabs, bad_missing, bad_extra
-
-
-def init_pool(model):
-    _G["model"] = model
 
 
 def visit_rules(ctx, mod, short):
@@ -182,34 +178,35 @@ def run(ctx):
     for rel, short, _tp in N.MODULES:
         mod = core.module(rel)
         ctx.saw(mod, "sysabs_unique"); ctx.saw(mod, "sysabs"); ctx.saw(mod, "genhkl_base"); ctx.saw(mod, "genhkl_all")
-        ops = H.extract_slot_model(rel)
-        sched = H.extract_schedules(rel)
+        am = H.AbsenceModel(rel)
         seg = tables.extract_segm(rel)
-        models[short] = (ops, sched, seg, visit_rules(ctx, mod, short))
-        ctx.floor("%s condition slots" % short, len({o[1] for o in ops}), 26)
-        ctx.floor("%s cone tables" % short, len(seg), 14)
-    def sched_key(a):
-        return [(d, perms) for d, _t, perms in a]
-    same_model = (models["tools"][0] == models["laue"][0] and sched_key(models["tools"][1]) == sched_key(models["laue"][1])
-                  and models["tools"][3] == models["laue"][3]
-                  and [(t["guard"], t["table"]) for t in models["tools"][2]] == [(t["guard"], t["table"]) for t in models["laue"][2]])
+        models[short] = (am, None, seg, visit_rules(ctx, mod, short))
+        ctx.floor("%s condition slots" % short, len(am.slots_read()), 26)
+        ctx.floor("%s cone tables" % short, seg.count(settings), 13)
+
+    def eff(visit, s):
+        return (s.crystal_system if visit["crystal_system"][0] == "param" else visit["crystal_system"][1],
+                s.cell_choice if visit["cell_choice"][0] == "param" else visit["cell_choice"][1])
+
+    def same_rules_for(s):
+        a, b = models["tools"], models["laue"]
+        return a[3] == b[3] and a[0].residual(s.syscond, *eff(a[3], s)) == b[0].residual(s.syscond, *eff(b[3], s))
+    combos_all = sorted({(s.Laue, s.cell_choice, s.crystal_system) for s in settings})
+    same_model = all(len(s.syscond) != 26 or same_rules_for(s) for s in settings) \
+        and all(models["tools"][2].table_key(*c) == models["laue"][2].table_key(*c) for c in combos_all)
     total_pts = 0
     jobs = []
     todo = [("tools", "xfab/tools.py", "")] if same_model else [("tools", "xfab/tools.py", ""), ("laue", "xfab/laue.py", ":laue")]
     if same_model:
         ctx.note("slot model, schedules and cone tables of laue are identical to those of tools: the table verdicts hold for both")
     for which, relname, sfx in todo:
-        model_ops, schedules, segm, visit = models[which]
+        am, _unused, segm, visit = models[which]
         # in the second pass only what differs from tools is analysed again (same keys otherwise)
-        same_rules = which == "tools" or (model_ops == models["tools"][0] and sched_key(schedules) == sched_key(models["tools"][1])
-                                          and visit == models["tools"][3])
 
-        def same_cones(laue_, cc_):
+        def same_cones(laue_, cc_, cs_=None):
             if which == "tools":
                 return False
-            a_ = tables.select_segm(segm, laue_, cc_)
-            b_ = tables.select_segm(models["tools"][2], laue_, cc_)
-            return [t_["table"] for t_ in a_] == [t_["table"] for t_ in b_]
+            return segm.table_key(laue_, cc_, cs_) == models["tools"][2].table_key(laue_, cc_, cs_)
         # ---- syscond vs operators, per setting
         jobs = []
         by_key = {}
@@ -217,20 +214,19 @@ def run(ctx):
             if len(s.syscond) != 26:
                 ctx.fail("C05:syscond:%s:length%s" % (s.key, sfx), "syscond has %d entries" % len(s.syscond), "%s:%d" % (sgl.rel, s.lines.get("syscond", 0)))
                 continue
-            if which != "tools" and same_rules and same_cones(s.Laue, s.cell_choice):
+            if which != "tools" and same_rules_for(s) and same_cones(s.Laue, s.cell_choice, s.crystal_system):
                 continue
-            hits = tables.select_segm(segm, s.Laue, s.cell_choice)
+            hits = tables.select_segm(segm, s.Laue, s.cell_choice, s.crystal_system)
             if len(hits) != 1:
                 # dispatch problems are C06's rule; here the setting cannot be analysed
                 ctx.fail("C05:syscond:%s:cones%s" % (s.key, sfx), "Laue class %r / cell_choice %r selects %d cone tables" % (s.Laue, s.cell_choice, len(hits)),
                          "%s:%d" % (sgl.rel, s.lines.get("Laue", 0)))
                 continue
             by_key[s.key] = s
-            cs_eff = s.crystal_system if visit["crystal_system"][0] == "param" else visit["crystal_system"][1]
-            cc_eff = s.cell_choice if visit["cell_choice"][0] == "param" else visit["cell_choice"][1]
-            jobs.append((s.key, tuple(s.syscond), cs_eff, cc_eff, H.int_ops(s), hits[0]["table"], Nbox))
+            cs_eff, cc_eff = eff(visit, s)
+            jobs.append((s.key, am.residual(s.syscond, cs_eff, cc_eff), H.int_ops(s), hits[0]["table"], Nbox))
         nproc = min(16, os.cpu_count() or 1)
-        with Pool(nproc, initializer=init_pool, initargs=((model_ops, schedules),)) as pool:
+        with Pool(nproc) as pool:
             results = pool.map(_setting_job, jobs, chunksize=4)
         for key, npts, nabs, missing, extra in results:
             s = by_key[key]
@@ -250,8 +246,8 @@ def run(ctx):
         for s in settings:
             combos.setdefault((s.Laue, s.cell_choice, s.crystal_system), s)
         for (laue, cc, csys), s in sorted(combos.items()):
-            hits = tables.select_segm(segm, laue, cc)
-            if len(hits) != 1 or same_cones(laue, cc):
+            hits = tables.select_segm(segm, laue, cc, csys)
+            if len(hits) != 1 or same_cones(laue, cc, csys):
                 continue
             fam = H.metric_family(csys, cc)
             for ci, rows in enumerate(hits[0]["table"]):
@@ -312,67 +308,4 @@ def run(ctx):
             "metrics; expansion template of genhkl_all; conjugacy of the seven R settings." % (Nbox, len(jobs), total_pts))
 
 
-def analyse_expand(ctx, mod, short, pid="C05"):
-    """genhkl_all: structural patterns with metavariables (local names are free)"""
-    fn = mod.func("genhkl_all")
-    where = core.loc(mod, fn)
-    npa = mod.np_alias
-    # the looked-up group object
-    sgc = [n_ for n_ in ast.walk(fn) if isinstance(n_, ast.Assign) and isinstance(n_.value, ast.Call)
-           and isinstance(n_.value.func, ast.Attribute) and n_.value.func.attr == "sg" and isinstance(n_.targets[0], ast.Name)]
-    kws = sorted(tuple(sorted((k.arg, core.unparse(k.value)) for k in c.value.keywords)) for c in sgc)
-    okg = kws == [(("cell_choice", "cell_choice"), ("sgname", "sgname")), (("cell_choice", "cell_choice"), ("sgno", "sgno"))] \
-        and len({c.targets[0].id for c in sgc}) == 1
-    ctx.check(okg, "%s:expand:%s.group" % (pid, short), "the group is not sg.sg(sgname=.., cell_choice=..) / sg.sg(sgno=.., cell_choice=..)", where)
-    if not sgc:
-        raise AnalysisError("%s.genhkl_all: space-group look-up not found" % short)
-    g = sgc[0].targets[0].id
-    # call of genhkl_base with the group's own attributes
-    base = mod.func("genhkl_base")
-    call = [n_ for n_ in ast.walk(fn) if isinstance(n_, ast.Call) and getattr(n_.func, "id", "") == "genhkl_base"]
-    okc = False
-    if len(call) == 1:
-        c = call[0]
-        sig = [a.arg for a in base.args.args]
-        full = dict(zip(sig, [core.unparse(x).replace(" ", "") for x in c.args]))
-        full.update({k.arg: core.unparse(k.value).replace(" ", "") for k in c.keywords})
-        okc = full == {"unit_cell": "unit_cell", "sysconditions": "%s.syscond" % g, "sintlmin": "sintlmin", "sintlmax": "sintlmax",
-                       "crystal_system": "%s.crystal_system" % g, "Laue_class": "%s.Laue" % g, "cell_choice": "%s.cell_choice" % g,
-                       "output_stl": "True"}
-    ctx.check(okc, "%s:expand:%s.base-call" % (pid, short),
-              "genhkl_base is not called with the looked-up group's syscond, crystal_system, Laue, cell_choice and output_stl=True", where)
-    # rotations: first nuniq and their negatives
-    b = {}
-    r1 = core.find_stmt("M_R = NP.concatenate((%s.rot[:%s.nuniq], -%s.rot[:%s.nuniq]))" % (g, g, g, g), fn, b, npa)
-    ctx.check(len(r1) == 1, "%s:expand:%s.rotations" % (pid, short),
-              "the expansion set is not concatenate((rot[:nuniq], -rot[:nuniq])) of the looked-up group", where)
-    Rn = r1[0][1]["M_R"] if r1 else None
-    # for refl in H: for R in Rots: append(dot(refl[:3], R))
-    ok_dot = False
-    ok_stl = False
-    ok_unique = False
-    for outer in [n_ for n_ in ast.walk(fn) if isinstance(n_, ast.For) and isinstance(n_.target, ast.Name)]:
-        inner = [x for x in outer.body if isinstance(x, ast.For) and isinstance(x.target, ast.Name)
-                 and isinstance(x.iter, ast.Name) and x.iter.id == Rn]
-        if not inner:
-            continue
-        rv, ov = inner[0].target.id, outer.target.id
-        dots = [n_ for n_ in ast.walk(inner[0]) if isinstance(n_, ast.Call) and isinstance(n_.func, ast.Attribute) and n_.func.attr == "dot"]
-        ok_dot = len(dots) == 1 and core.match_expr("NP.dot(%s[:3], %s)" % (ov, rv), dots[0], {}, npa) is not None \
-            and len(inner[0].body) == 1 and core.match_stmt("M_L.append(X_e)", inner[0].body[0], {}, npa) is not None
-        # stl of the family copied to each member; duplicates removed through unique(return_index=True)
-        bs = {}
-        st1 = [x for x in outer.body if core.match_stmt("M_s = %s[3]" % ov, x, bs, npa)]
-        un = [x for x in outer.body if core.match_stmt("(M_d, M_rows) = NP.unique((M_a * NP.random.rand(3)).sum(axis=1), return_index=True)", x, bs, npa)]
-        cat = [x for x in outer.body if core.match_stmt(
-            "M_sub = NP.concatenate((M_a[M_rows], NP.array([[M_s] * len(M_rows)]).transpose()), axis=1)", x, bs, npa)]
-        acc = [x for x in outer.body if core.match_stmt("M_all = NP.concatenate((M_all, M_sub))", x, bs, npa)]
-        ok_stl = len(st1) == 1 and len(cat) == 1 and len(acc) == 1
-        ok_unique = len(un) == 1 and len(cat) == 1
-    ctx.check(ok_dot, "%s:expand:%s.right-action" % (pid, short),
-              "family members are not dot(hkl_row[:3], R) for every R of the expansion set (hkl row on the left)", where)
-    ctx.check(ok_stl, "%s:expand:%s.stl" % (pid, short), "the family's sin(theta)/lambda (column 3 of the unique row) is not copied to each member", where)
-    ctx.check(ok_unique, "%s:expand:%s.dedupe" % (pid, short),
-              "duplicates within a family are not removed by selecting rows through unique(..., return_index=True)", where)
-    if any(isinstance(n_, ast.Attribute) and n_.attr == "rand" for n_ in ast.walk(fn)):
-        ctx.note("%s.genhkl_all draws from numpy's global RNG for its de-duplication projections (side effect on the global state)" % short)
+from props.hklwrap import analyse_expand  # noqa: E402  (E7 evaluation of genhkl_all on a model group)
